@@ -68,6 +68,7 @@ fn run_line(ctx: &mut verbs::Ctx, line: &str) -> bool {
     *mon::LAST_PANIC.lock().unwrap() = None;
     mon::begin_command(seq, limit);
     let live_before = mon::LIVE.load(Relaxed);
+    let malloc_before = mon::malloc_in_use();
     let cpu0 = mon::cpu_us();
     // verbs run entirely in counted mode
     let r = {
@@ -92,6 +93,8 @@ fn run_line(ctx: &mut verbs::Ctx, line: &str) -> bool {
     };
     ctx.clear_inputs();
     let live_after = mon::LIVE.load(Relaxed);
+    // C-allocator view of the same interval; the copied-out result is still alive, so discount it
+    let malloc_delta = mon::malloc_in_use() as i64 - malloc_before as i64 - (outcome.capacity() + value.capacity()) as i64;
     let peak = ctx.api_peak.take().unwrap_or(mon::PEAK.load(Relaxed));
     let max_req = ctx.api_maxreq.take().unwrap_or(mon::MAXREQ.load(Relaxed));
     let mut rec = vec![
@@ -109,6 +112,7 @@ fn run_line(ctx: &mut verbs::Ctx, line: &str) -> bool {
                 "peak" => (peak - live_before) as i64,
                 "max_req" => max_req,
                 "nalloc" => mon::NALLOC.load(Relaxed),
+                "malloc_delta" => malloc_delta,
             },
         ),
     ];
